@@ -129,20 +129,10 @@ def check_relaxation_guards(rep: Rep, rule: str, comp: Competition, u: UpdateSit
 # ---------------------------------------------------------------------------
 
 
-def check_fmax_competition(rep: Rep, pre: str, comp: Competition,
-                           extra_store: Callable[[Event, UpdateSite], bool] = None) -> None:
-    w = comp.walker
+def check_removal_bookkeeping(rep: Rep, pre: str, comp: Competition) -> List[Event]:
+    """One unconditional conquest-order append and one cost record per removal."""
     fn = comp.fn
     p = comp.p
-    rep.fn(pre + "IFT-policy", fn, f"Heap policy of the competition loop = {comp.policy!r}",
-           comp.policy == "min",
-           "" if comp.policy == "min" else "f_max optimum paths need a min-priority queue",
-           line=comp.loop.line)
-    rep.fn(pre + "IFT-graph", fn, f"heap sized from {show(comp.graph) if comp.graph else '?'}.n_nodes",
-           comp.graph is not None, "heap capacity is not the node count of a graph", line=comp.loop.line)
-    if comp.graph is None:
-        return
-    # (3) removal bookkeeping
     appends = [
         e for e in comp.events
         if e.kind == "call" and e.name == "append" and e.target == ("attr", ("attr", comp.graph, "idx_nodes"), "append")
@@ -161,6 +151,23 @@ def check_fmax_competition(rep: Rep, pre: str, comp: Competition,
            len(okc) >= 1 and len(okc) == len(cost_stores),
            f"{len(cost_stores)} store(s) to a node cost in the loop, {len(okc)} of the required form",
            line=comp.loop.line)
+    return okc
+
+
+def check_fmax_competition(rep: Rep, pre: str, comp: Competition,
+                           extra_store: Callable[[Event, UpdateSite], bool] = None) -> None:
+    w = comp.walker
+    fn = comp.fn
+    p = comp.p
+    rep.fn(pre + "IFT-policy", fn, f"Heap policy of the competition loop = {comp.policy!r}",
+           comp.policy == "min",
+           "" if comp.policy == "min" else "f_max optimum paths need a min-priority queue",
+           line=comp.loop.line)
+    rep.fn(pre + "IFT-graph", fn, f"heap sized from {show(comp.graph) if comp.graph else '?'}.n_nodes",
+           comp.graph is not None, "heap capacity is not the node count of a graph", line=comp.loop.line)
+    if comp.graph is None:
+        return
+    okc = check_removal_bookkeeping(rep, pre, comp)
     # relaxation sites
     rep.fn(pre + "IFT-update-sites", fn, "exactly one relaxation site (H.update) in the loop",
            len(comp.updates) == 1, f"found {len(comp.updates)}", line=comp.loop.line)
